@@ -72,5 +72,5 @@ class EFLRSetsDict(defaultdict):
     def get_all_items_for_set_type(self, eflr_set_type: type[EFLRSet]) -> Generator[AnyEFLRItem, None, None]:
         """Retrieve all EFLRItem instances registered for all instances of given EFLRSet subclass."""
 
-        for value in self[eflr_set_type].values():
+        for value in self.get(eflr_set_type, {}).values():  # (looking up a missing key would add it)
             yield from value.get_all_eflr_items()
